@@ -1365,6 +1365,23 @@ class SizeInterp:
         else:
             s.sz = size
 
+    def has_sites(self, fn):
+        cache = self.__dict__.setdefault("_has_sites", {})
+        if fn["path"] not in cache:
+            hit = False
+            for x in T.walk(fn["body"]):
+                k = x.get("k")
+                if k == "Adt" and x.get("adt", "").endswith("def::Def") and x.get("v") == "Assign":
+                    hit = True
+                elif k == "Call" and x.get("n") == "substitute_input_var":
+                    hit = True
+                elif k == "Assign" and x["l"].get("k") == "Deref" and "expression::Expression" in (self.F.ty(x["l"]) or ""):
+                    hit = True
+                if hit:
+                    break
+            cache[fn["path"]] = hit
+        return cache[fn["path"]]
+
     def inline(self, n, vs, st, depth):
         """Interpret a small crate-local callee that returns a tracked value in the caller's state."""
         if depth >= self.inline_depth:
@@ -1380,6 +1397,8 @@ class SizeInterp:
         rk = self.tykind(F.ty(n))
         rty = F.ty(n)
         if rk not in ("expr", "variable", "obj", "size", "def") and not ("expression::Expression" in rty and (rty.startswith("std::option::Option<") or rty.startswith("("))):
+            # a helper that returns nothing tracked is still interpreted when it contains obligation sites of its own
+            # (a constructed Def::Assign, a rewrite, a substitution): they are judged under the caller's size equations
             return None
         if sum(1 for _ in T.walk(fn["body"])) > 1500:
             return None
